@@ -96,6 +96,15 @@ const SEPARATORS: [&str; 10] = [" ", " ", " ", "-", ".", ", ", "'", "\u{ad}", "\
 
 impl UserLang {
     pub fn random(rng: &mut Rng) -> UserLang {
+        Self::random_opts(rng, true)
+    }
+
+    /// `label_symbols`: whether the language may label characters that are no letters (apostrophe, currency sign, separators)
+    /// with classes of its choice. A class label is the price of mistyping that character, so a language that calls the space a
+    /// consonant makes "wi fi" a dearer spelling of "wifi" than the finding properties (C03, C04, C13, C14) assume of a
+    /// separator: their streams draw languages without such labels; the tokenisation and title properties (C15, C02), on which
+    /// a label has no bearing, draw them with.
+    pub fn random_opts(rng: &mut Rng, label_symbols: bool) -> UserLang {
         let mut lang = Lang::new();
         let mut compose: Vec<(String, String)> = vec![];
         let mut reduce: Vec<(String, String)> = vec![];
@@ -136,7 +145,7 @@ impl UserLang {
                 classes.push((c, "consonant"));
             }
         }
-        if rng.chance(1, 3) {
+        if label_symbols && rng.chance(1, 3) {
             // ... and labels a few characters that are no letters - an apostrophe, a currency sign, a combining mark, even a
             // separator - with classes of its choice (what a class label changes is the cost of mistyping that character)
             let syms = cv(SYMBOLS);
